@@ -4,7 +4,7 @@ import re
 
 from . import flow
 from .flow import chain, guarded, present
-from .evalx import evalx, Unknown
+from .evalx import evalx, eval_pure, Unknown
 from .schemes import call
 
 M = "xenium::harris_michael_hash_map::"
@@ -21,8 +21,8 @@ def ordering_predicates(ctx):
     for pat in (M + "data_with_hash::greater_or_equal", M + "data_without_hash::greater_or_equal"):
         for fn in flow._shapes(ctx, pat):
             rets = flow.find(fn, {"k": "return"})
-            if len(rets) != 1 or not fn.kids(rets[0]):
-                ctx.broken.append("%s: predicate is not a single return expression" % pat)
+            if not rets or not all(fn.kids(r) for r in rets):
+                ctx.broken.append("%s: predicate does not return a value" % pat)
                 continue
             ex = fn.kids(rets[0])[0]
             cmpops = {"call:operator>=": lambda a, b: int(a >= b), "call:operator>": lambda a, b: int(a > b), "call:operator<": lambda a, b: int(a < b),
@@ -34,7 +34,8 @@ def ordering_predicates(ctx):
                     def P(x, y):
                         env = {"hash": f[x], "this.hash": f[x], "first": x, "this.first": x, "h": f[y], "key": y}
                         env.update(cmpops)
-                        return bool(evalx(fn, ex, env))
+                        # the whole (loop-free, call-free) predicate is evaluated along its single feasible path, whatever its statement structure
+                        return bool(eval_pure(fn, env))
                     for x in keys:
                         n_eval += 1
                         if not P(x, x):
@@ -56,7 +57,7 @@ def ordering_predicates(ctx):
             ctx.exhaustive[rid] = True
             ctx.check(viol is None, rid, pat + "#total-preorder", "total, reflexive, transitive, antisymmetric on keys over %d evaluations" % n_eval,
                       "%s is not a total order compatible with key equality: %s (hash function %s). An iterator that re-scans for the successor of an "
-                      "erased element skips elements that stayed in the map" % (fn.expr(ex), viol[0] if viol else "", viol[1] if viol else ""), fn.where(), fn=fn)
+                      "erased element skips elements that stayed in the map" % (" / ".join(fn.expr(fn.kids(r)[0]) for r in rets), viol[0] if viol else "", viol[1] if viol else ""), fn.where(), fn=fn)
     # set: stop = !compare(ckey, key); found = !compare(key, ckey)
     for fn in flow._shapes(ctx, S + "find"):
         if len(fn.params) < 2:
@@ -76,6 +77,15 @@ def ordering_predicates(ctx):
                 a_, p_ = flow.strip_cond(fn, fn.kids(r)[0])
                 if a_ is not None and a_ >= 0 and is_cmp_call(a_):
                     rets.append(r)
+        # the set is ordered AND de-duplicated by the configured comparator alone: a key comparison with ==/!= anywhere in the search decides
+        # "same element" differently from the comparator (distinct keys that are equivalent under it would both be inserted)
+        eqs = [e for e, n_ in enumerate(fn.nodes) if flow.eq_cmp(fn, e) and e in fn.pos() and fn.pos()[e][0] in fn.live_blocks() and
+               any(flow.has_src(fn, x, "field:key") for x in flow.eq_cmp(fn, e)[1:]) and any(flow.has_src(fn, x, "param#0") for x in flow.eq_cmp(fn, e)[1:])]
+        ctx.check(not eqs, rid, S + "find#comparator-only", "keys are compared through the configured comparator only",
+                  "the list search compares keys with %s instead of the configured comparator: two keys that are equivalent under policy::compare but not == are treated as "
+                  "different elements (uniqueness lost; contains/erase miss the stored equivalent key)" % (fn.expr(eqs[0]) if eqs else ""), fn.where(eqs[0]) if eqs else fn.where(), fn=fn)
+        if eqs:
+            continue
         if not conds or not rets:
             ctx.broken.append("harris_michael_list_based_set::find: compare idiom not found")
             continue
@@ -274,6 +284,55 @@ def insert_protocol(ctx):
                       "bucket selection differs from the other operations: %s" % "; ".join(fn.expr(d) for d in decls), fn.where(), fn=fn)
 
 
+def _strip(fn, nid):
+    for _ in range(6):
+        n = fn.nodes[nid]
+        if n["k"] == "cast" and fn.kids(nid):
+            nid = fn.kids(nid)[0]
+            continue
+        if n["k"] == "call" and n.get("callee") == "std::move" and fn.kids(nid):
+            nid = fn.kids(nid)[0]
+            continue
+        if n["k"] == "construct" and len(fn.kids(nid)) == 1:
+            nid = fn.kids(nid)[0]
+            continue
+        break
+    return nid
+
+
+def iterator_bucket_agreement(ctx):
+    """an iterator built from a search result records the bucket index the search position (find_info) belongs to"""
+    rid2 = "HM.bucket"
+    n_sites = 0
+    for fn in ctx.facts.fns:
+        if not fn.pat.startswith(M) or fn.inlined_helper:
+            continue
+        for b_, i_, e, n_ in fn.events():
+            if n_["k"] != "construct" or not n_.get("callee", "").endswith("iterator::iterator") or len(fn.kids(e)) != 3:
+                continue
+            k = fn.kids(e)
+            info = _strip(fn, k[2])
+            if fn.nodes[info]["k"] != "ref" or fn.nodes[info].get("dk") != "local":
+                continue
+            d = flow.unique_def(fn, fn.nodes[info]["name"])
+            if d is None:
+                continue
+            # find_info{&buckets[IDX], ...}: the index expression of the bucket head the search starts from
+            idx = [x for x in fn.subtree(d) if (fn.nodes[x]["k"] == "index" or (fn.nodes[x]["k"] == "call" and fn.nodes[x].get("callee", "").endswith("operator[]"))) and
+                   fn.field_of(fn.kids(x)[0]).endswith("buckets")]
+            if not idx:
+                continue
+            n_sites += 1
+            ib = _strip(fn, fn.kids(idx[0])[1])
+            bb = _strip(fn, k[1])
+            same = fn.expr(ib) == fn.expr(bb) and (fn.nodes[ib]["k"] != "ref" or fn.nodes[ib].get("dk") != "local" or flow.unique_def(fn, fn.nodes[ib]["name"]) is not None)
+            ctx.check(same, rid2, fn.pat + "#iterator-bucket=search-bucket", "the iterator records bucket %s, the bucket its position was searched in" % fn.expr(bb),
+                      "the iterator is constructed with bucket index %s but its position (find_info) lies in buckets[%s]: when the iterator runs off the end of that list it "
+                      "continues from the wrong bucket (elements skipped, or an out-of-bounds bucket access when it re-scans)" % (fn.expr(bb), fn.expr(ib)), fn.where(e), fn=fn)
+    if n_sites < 3:
+        ctx.broken.append("HM.bucket: only %d iterator-from-search construction sites found" % n_sites)
+
+
 def _key_is_live(fn, key_nid, use_nid):
     """the key expression handed to find() must not denote an object that may have been moved from on some path to this call"""
     names = [fn.nodes[x]["name"] for x in fn.subtree(key_nid) if fn.nodes[x]["k"] == "ref" and fn.nodes[x].get("dk") in ("param", "local")]
@@ -463,9 +522,14 @@ def iterator_rules(ctx):
             mnb = flow.find(fn, call("move_to_next_bucket"))
             if C == M:
                 ctx.check(bool(mnb), rid, inst + "#next-bucket", "move_to_next_bucket called when cur is empty", "operator++ never moves on to the next bucket", fn.where(), fn=fn)
-                for x in mnb:
-                    ok, path, n = flow.only_via(fn, x, lambda f, nid: "info.cur" in f.expr(nid) or "cur" in f.expr(nid), False)
+                _normalise_rule(ctx, rid, fn, inst, mnb)
         if C == M:
+            for fn in flow._shapes(ctx, C + "iterator::iterator"):
+                if len(fn.params) == 2 and flow.find(fn, call("guard_ptr::acquire")):
+                    _normalise_rule(ctx, rid, fn, C + "iterator::iterator(map,bucket)", flow.find(fn, call("move_to_next_bucket")))
+            for fn in flow._shapes(ctx, C + "erase"):
+                if fn.params and "iterator" in fn.params[0].get("t", ""):
+                    _normalise_rule(ctx, rid, fn, C + "erase(iterator)", flow.find(fn, call("move_to_next_bucket")))
             for fn in flow._shapes(ctx, C + "iterator::move_to_next_bucket"):
                 acq = flow.find(fn, call("guard_ptr::acquire"))
                 ctx.check(bool(acq), rid, C + "iterator::move_to_next_bucket#acquire-head", "bucket head acquired through a guard",
@@ -475,6 +539,41 @@ def iterator_rules(ctx):
                 ctx.check(ok, rid, C + "iterator::move_to_next_bucket#prev=head<acquire", "prev set to the bucket head before acquiring",
                           "info.prev is not re-pointed to the new bucket head before acquiring from it", fn.where(), fn=fn)
                 present(ctx, rid, C + "iterator::move_to_next_bucket", call("guard_ptr::reset"), label="save-reset")
+
+
+def _normalise_rule(ctx, rid, fn, inst, mnb):
+    """after anything that may leave the cursor guard `cur` empty (a guard taken over from acquire_if_equal, an acquire from a bucket head, the
+    re-find of the slow path) every path to the exit either calls move_to_next_bucket or has seen `cur` non-empty - otherwise the iterator
+    compares equal to end() although later buckets still hold elements"""
+    cur_is = lambda f, x: flow.has_src(f, x, "field:cur")
+    nonempty, _n = flow.licensed_edges(fn, flow.negate_want(flow.null_want(cur_is)))
+    blocked = {fn.pos()[x][0] for x in mnb if x in fn.pos()}
+    mods = []
+    for e in flow.find(fn, {"k": "call"}):
+        cal = fn.nodes[e].get("callee", "")
+        k = fn.kids(e)
+        if not k:
+            continue
+        if (cal.endswith("operator=") or cal.endswith("guard_ptr::acquire")) and fn.field_of(k[0]).endswith("find_info::cur"):
+            mods.append(e)
+        elif cal.endswith("::find") and any(fn.field_of(x).endswith("::info") for x in k):
+            mods.append(e)
+    if not mods:
+        ctx.broken.append("%s: no event that replaces the cursor guard found" % inst)
+    for m_ in mods:
+        mb = fn.pos()[m_][0]
+        leak = None
+        if not any(fn.pos()[x][0] == mb and fn.pos()[x][1] > fn.pos()[m_][1] for x in mnb if x in fn.pos()):
+            for s_ in fn.blocks[mb]["succ"]:
+                if s_ is None or (mb, s_) in nonempty:
+                    continue
+                pth = flow._path(fn, s_, fn.exit, nonempty, blocked)
+                if pth is not None:
+                    leak = [mb] + pth
+                    break
+        ctx.check(leak is None, rid, inst + "#normalise-empty-cur", "after %s every path to the exit tests the cursor and moves on to the next bucket when it is empty" % fn.expr(m_)[:50],
+                  "after %s (line %d) the iterator can be returned with an empty cursor without move_to_next_bucket(): it then compares equal to end() and the "
+                  "elements of all following buckets are skipped" % (fn.expr(m_)[:60], fn.nodes[m_].get("l", 0)), fn.where(m_), fn=fn, path=flow.describe_path(fn, leak or []))
 
 
 def find_protocol(ctx):
